@@ -11,6 +11,9 @@ verus! {
 
 //@@ include io_prelude
 //@@ include write_prelude
+// src/multipart_crate/lazy.rs uses the std `Result`, src/multipart.rs the crate alias: here the alias is written out (R11)
+//@@ define std_result_name
+//@@ include errors
 //@@ item src/request/body.rs enum BodyKind vis=pub
 //@@ end
 //@@ include multipart_prelude
@@ -24,6 +27,8 @@ macro_rules! vp_read_dispatch {
     ($f:ident, $b:expr) => { $f.read($b) };
 }
 //@@ include multipart_code
+//@@ include multipart_build
 }
+//@@ include errors_tail
 impl<'d> Read for PreparedFields<'d> { fn read(&mut self, buf: &mut [u8]) -> io::Result<usize> { PreparedFields::read(self, buf) } }
 fn main(){}
